@@ -23,6 +23,52 @@ MATCH_ATOMS = {b"ab+": [b"ab", b"abb"], b", +": [b", ", b",  "], b"-|,+": [b"-",
 REPLS = [b"/", b"::", b"", b"$0x", b"-", b",-", b"\\1"]
 
 
+class _M:
+    def __init__(self, a, b, text):
+        self._a, self._b, self._t = a, b, text
+
+    def start(self):
+        return self._a
+
+    def end(self):
+        return self._b
+
+    def group(self, _k=0):
+        return self._t
+
+
+class UniRx:
+    """a python `str` regex (Unicode classes: \\s \\d \\w, negated classes and `.` over whole characters) behind the bytes interface the
+    oracle uses: offsets are converted to byte offsets of the UTF-8 text (inputs of this stream are valid UTF-8 by construction)"""
+
+    def __init__(self, pattern):
+        self.rx = re.compile(pattern)
+
+    def finditer(self, data):
+        text = data.decode("utf-8")
+        off = [0]
+        for ch in text:
+            off.append(off[-1] + len(ch.encode("utf-8")))
+        for m in self.rx.finditer(text):
+            yield _M(off[m.start()], off[m.end()], data[off[m.start()]:off[m.end()]])
+
+    def sub(self, fn, data):
+        out, pos = b"", 0
+        for m in self.finditer(data):
+            if m.end() == m.start():
+                continue
+            out += data[pos:m.start()] + fn(m)
+            pos = m.end()
+        return out + data[pos:]
+
+
+def mk_rx(cfg, greedy):
+    if cfg.get("uni"):
+        t = cfg["re"].decode("utf-8")
+        return UniRx("(?:" + t + ")+" if greedy else t)
+    return re.compile(b"(?:" + cfg["re"] + b")+" if greedy else cfg["re"])
+
+
 def gaps(line, rx):
     f, s, pos = [], [], 0
     for m in rx.finditer(line):
@@ -36,8 +82,8 @@ def gaps(line, rx):
 
 
 def spec_record(rec, cfg):
-    n_rx = re.compile(cfg["re"])
-    g_rx = re.compile(b"(?:" + cfg["re"] + b")+")
+    n_rx = mk_rx(cfg, False)
+    g_rx = mk_rx(cfg, True)
     # cut_str refuses these option sets before looking at the record ("fails on the first record", C19)
     if cfg["p"] and cfg["r"] is None:
         return b"", False
@@ -133,7 +179,7 @@ def spec_run(inp, cfg):
 def _run_once(chk):
     chk.rule = ("regex family {-, [-,], -|,, (alternation of different lengths), ,,|, , -+, é, ab|a, (-|,)+, a(b|cc), \\|, é|,, ab+, -|,+, \\+, ', +'} × records over the "
                 "regex's own alphabet (plus, in a quarter of the cases, the replacement text itself) × bounds with sides in ±4/open and fallbacks × subsets of -g, -t l|r|b, -p -r R, -r R (R ∈ {/, ::, empty, $0x, -, ',-', "
-                "\\1}), -s, -m, -j; match positions of the real engine compared with python's re and the Lean matcher on every record; "
+                "\\1}), -s, -m, -j; on the real binary also \\s \\d \\w / negated classes / `.` on alphabets with NBSP, U+3000, U+0663, é, 😎; match positions of the real engine compared with python's re and the Lean matcher on every record; "
                 "non-trivial = selects a byte or fails")
     run_corpus(chk)
     rng = chk.rng
@@ -226,6 +272,43 @@ def _run_once(chk):
         est, eout = spec_run(inp, cfgs[k])
         if st != ("0" if est == "ok" else "1") or (est == "ok" and out != eout):
             chk.report_oracle("CLI: output differs from the reading of the statement (python oracle over an independent regex engine)",
+                              {"argv": argv, "stdin_hex": inp.hex(), "binary": [st, out.hex()], "expected": f"{est} {eout.hex()}"})
+    # Unicode classes: an ASCII-looking pattern (\\s \\d \\w, a negated class, `.`) describes non-ASCII text too — NBSP and U+3000 are blanks,
+    # U+0663 is a digit, é is a word character, `[^a]` and `.` consume whole characters.  Real binary only (the regex pair is built by
+    # main), oracle: python's `str` regexes on alphabets where the two engines' classes agree.
+    UNI = [("\\s+", ["a", "b", " ", "\t", "\u00a0", "\u3000"]), ("\\s", ["a", " ", "\u00a0", "\u3000"]), ("[\\s,]+", ["a", ",", " ", "\u00a0"]),
+           ("\\d+", ["a", "1", "2", "\u0663", "-"]), ("\\w+", ["a", "é", "_", "-", " ", "\u0663"]), ("[^a]+", ["a", "é", "😎", "b"]),
+           ("-.", ["-", "a", "é", "\u00a0"]), ("\\S+", ["a", "é", " ", "\u00a0"])]
+    ucli = []
+    for _ in range(600 if chk.tier == "quick" else 6000):
+        rxs, alpha = rng.choice(UNI)
+        recs = ["".join(rng.choice(alpha) for _ in range(rng.randint(0, 7))).encode() for _ in range(rng.randint(1, 3))]
+        inp = b"\n".join(recs) + (b"\n" if rng.random() < 0.7 else b"")
+        l, r = rng.choice([(1, 1), (2, 2), (1, None), (2, 3), (-1, -1), (None, 2), (3, 3)])
+        cfg = {"uni": True, "re": rxs.encode(), "g": rng.random() < 0.3, "t": rng.choice([None, None, "l", "r", "b"]), "p": False, "s": rng.random() < 0.2,
+               "m": False, "j": rng.random() < 0.2, "r": rng.choice([None, None, b"/", b"::"]), "fb": rng.choice([None, b"G"]),
+               "bounds": [(l, r, None)]}
+        if cfg["r"] is not None and rng.random() < 0.3:
+            cfg["p"] = True
+        argv = ["-e", rxs, "-f", bound_text(l, r, None, l == r)]
+        for fl, key in (("-g", "g"), ("-p", "p"), ("-s", "s"), ("-j", "j")):
+            if cfg[key]:
+                argv.append(fl)
+        if cfg["t"]:
+            argv += ["-t", cfg["t"]]
+        if cfg["r"] is not None:
+            argv += ["-r", cfg["r"].decode()]
+            cfg["j"] = True
+        if cfg["fb"] is not None:
+            argv += ["--fallback-oob", cfg["fb"].decode()]
+        ucli.append((argv, inp, cfg))
+    for (argv, inp, cfg), (st, out) in zip(ucli, run_cli(tuc, [(a, i) for a, i, _ in ucli])):
+        chk.evaluations += 1
+        chk.count("cli-unicode-classes")
+        chk.nontrivial_add(("uni", tuple(argv), inp))
+        est, eout = spec_run(inp, cfg)
+        if st != ("0" if est == "ok" else "1") or (est == "ok" and out != eout):
+            chk.report_oracle("CLI: a Unicode class of the regex (\\s \\d \\w, a negated class, `.`) is not applied to non-ASCII text as the regex says",
                               {"argv": argv, "stdin_hex": inp.hex(), "binary": [st, out.hex()], "expected": f"{est} {eout.hex()}"})
     # the matcher: real engine vs python's re vs the Lean model; and the contract
     ml = [case_line(c) for c in M]
